@@ -224,3 +224,57 @@ Qed.
 
 Lemma good_flags c : good c -> goodb c = true.
 Proof. apply goodb_spec. Qed.
+
+(* ---- the model kernel resolves a confined path inside the export ----
+   Model/HostFS.v has no symbolic links and refuses "." / "..": a path
+   Base/<components> resolves, if at all, to an inode reached from the export
+   root's inode by descending through directory entries named by the components. *)
+
+Lemma walk_ino_app t a : forall i b,
+  walk_ino t i (a ++ b) = match walk_ino t i a with Some j => walk_ino t j b | None => None end.
+Proof.
+  induction a as [|c a IH]; intros i b; simpl; [reflexivity|].
+  destruct (nassoc i t) as [[m d|m ents]|]; try reflexivity.
+  destruct (sassoc c ents) as [j|]; [apply IH|reflexivity].
+Qed.
+
+Lemma kcomps_render l : Forall okcomp l -> kcomps (render l) = l.
+Proof.
+  intros Hl. unfold kcomps, render.
+  change (split_slash (SLASH :: join_slash l)) with (split_slash ([] ++ SLASH :: join_slash l)).
+  rewrite split_app. change (split_slash []) with [@nil N]. cbn [app filter is_empty negb].
+  destruct (split_join_facts l Hl) as (_ & Hb). exact Hb.
+Qed.
+
+Lemma model_resolution_confined h bcs cs i :
+  Forall okcomp bcs -> Forall good cs ->
+  resolve h (render (bcs ++ cs)) = Some i ->
+  exists b, walk_ino (h_inodes h) ROOT_INO bcs = Some b /\ walk_ino (h_inodes h) b cs = Some i.
+Proof.
+  intros Hb Hc. unfold resolve, kpath.
+  assert (Hk : kcomps (render (bcs ++ cs)) = bcs ++ cs).
+  { apply kcomps_render. apply Forall_app. split; [exact Hb|apply good_okcomp; exact Hc]. }
+  rewrite Hk.
+  destruct (_ && _); [|discriminate].
+  rewrite walk_ino_app. destruct (walk_ino (h_inodes h) ROOT_INO bcs) as [b|]; [|discriminate].
+  intros E. exists b. auto.
+Qed.
+
+Lemma model_parent_confined h bcs cs d dm ents name :
+  Forall okcomp bcs -> Forall good cs -> cs <> [] ->
+  resolve_parent h (render (bcs ++ cs)) = Some (d, dm, ents, name) ->
+  exists b, walk_ino (h_inodes h) ROOT_INO bcs = Some b /\
+            walk_ino (h_inodes h) b (removelast cs) = Some d /\ name = last cs [].
+Proof.
+  intros Hb Hc Hne. unfold resolve_parent, kpath.
+  assert (Hk : kcomps (render (bcs ++ cs)) = bcs ++ cs).
+  { apply kcomps_render. apply Forall_app. split; [exact Hb|apply good_okcomp; exact Hc]. }
+  rewrite Hk.
+  destruct (_ && _); [|discriminate].
+  destruct cs as [|x cs'] using rev_ind; [congruence|]. clear IHcs'.
+  rewrite app_assoc, rev_unit, removelast_last, removelast_last, last_last.
+  rewrite walk_ino_app. destruct (walk_ino (h_inodes h) ROOT_INO bcs) as [b|]; [|discriminate].
+  destruct (walk_ino (h_inodes h) b cs') as [d'|] eqn:Ew; [|discriminate].
+  destruct (nassoc d' (h_inodes h)) as [[m dd|m es]|]; try discriminate.
+  intros E. inversion E; subst. exists b. auto.
+Qed.
